@@ -1,12 +1,353 @@
-import Operon.Model.Cffl
+import Operon.Lemmas.C07
 import Operon.Gen.GateTable
+/-!
+# C07 — two-key guard: an action passes only with the approvals its gate logic requires
+
+Property theorems only.  Model: `Operon/Model/Cffl.lean` (`applyGate`, `run`, `exec`), tied to
+`operon_ai/topology/loops.py` by extractor E2 (`Operon/Gen/GateTable.lean`: the complete decision table of the
+real `_apply_gate_logic`, regenerated on every run) and by the differential correspondence of
+`harness/vf/props/c07.py`.
+
+Reading of the property text (DESIGN.md C07): "executor permits" = verdict EXECUTE or PERMIT; "assessor
+permits" = verdict PERMIT (an assessor answering EXECUTE has not issued an approval); every string other than
+the four literals is an unknown verdict and counts as neither permit nor block nor failure (`criterion`).
+
+All statements quantify over every configuration, every pair of hash functions, every state / every history,
+every prompt and every behaviour of the two agents (any verdict string, or an exception).
+-/
 namespace Operon.Cffl
 open Operon.Gen
 
-/-- The extracted decision table (the real `_apply_gate_logic` evaluated on every gate logic × verdict ×
-    verdict) agrees with the model's `applyGate` on every row. -/
+/-! ### the decision table -/
+
+/-- E2: the decision table of the real `_apply_gate_logic` (evaluated on every gate logic × executor verdict ×
+    assessor verdict, the verdicts ranging over the four known literals and three representatives of "anything
+    else") agrees with the model's `applyGate` on every row; it covers every gate logic and every pair of
+    verdict classes; every token the real code attached carried sha256(prompt)[:16] and the assessor's name;
+    and `action_type` is compared only against literals that define the classes (so the code cannot tell two
+    unknown verdicts apart). -/
 theorem c07_gate_table_agrees :
-    GateTable.ok = true ∧ ∀ r ∈ GateTable.rows, applyGate r.1 (classify r.2.1) (classify r.2.2.1) = r.2.2.2 := by
-  decide +kernel
+    GateTable.ok = true ∧ GateTable.shapeOk = true ∧ GateTable.tokensWellFormed = true ∧
+    (∀ l ∈ GateTable.literals, classify l ≠ .other) ∧
+    (∀ r ∈ GateTable.rows, applyGate r.1 (classify r.2.1) (classify r.2.2.1) = r.2.2.2) ∧
+    (∀ (g : Gate) (z y : Cls), ∃ r ∈ GateTable.rows, r.1 = g ∧ classify r.2.1 = z ∧ classify r.2.2.1 = y) := by
+  have h : GateTable.ok = true ∧ GateTable.shapeOk = true ∧ GateTable.tokensWellFormed = true ∧
+      (∀ l ∈ GateTable.literals, classify l ≠ .other) ∧
+      (∀ r ∈ GateTable.rows, applyGate r.1 (classify r.2.1) (classify r.2.2.1) = r.2.2.2) ∧
+      (∀ g ∈ allGates, ∀ z ∈ allCls, ∀ y ∈ allCls,
+        ∃ r ∈ GateTable.rows, r.1 = g ∧ classify r.2.1 = z ∧ classify r.2.2.1 = y) := by
+    decide +kernel
+  refine ⟨h.1, h.2.1, h.2.2.1, h.2.2.2.1, h.2.2.2.2.1, ?_⟩
+  intro g z y
+  exact h.2.2.2.2.2 g (mem_allGates g) z (mem_allCls z) y (mem_allCls y)
+
+/-- The verdict classes partition all strings: a string is in one of the four named classes exactly when it
+    is that literal, and in `other` exactly when it is none of them. -/
+theorem c07_classes_partition (s : String) :
+    (classify s = .execute ↔ s = "EXECUTE") ∧ (classify s = .permit ↔ s = "PERMIT") ∧
+    (classify s = .block ↔ s = "BLOCK") ∧ (classify s = .failure ↔ s = "FAILURE") ∧
+    (classify s = .other ↔ (s ≠ "EXECUTE" ∧ s ≠ "PERMIT" ∧ s ≠ "BLOCK" ∧ s ≠ "FAILURE")) := by
+  unfold classify
+  by_cases h1 : s = "EXECUTE"
+  · subst h1; decide
+  · by_cases h2 : s = "PERMIT"
+    · subst h2; decide
+    · by_cases h3 : s = "BLOCK"
+      · subst h3; decide
+      · by_cases h4 : s = "FAILURE"
+        · subst h4; decide
+        · simp [h1, h2, h3, h4]
+
+/-- The gate lets a request through exactly when the two verdicts satisfy the configured gate logic as the
+    property text defines it — for all six gate logics and all verdict classes (AND/UNANIMOUS: both permit;
+    OR: at least one; EXECUTOR_PRIORITY: executor permits and assessor does not block; ASSESSOR_PRIORITY:
+    assessor permits and executor did not fail; MAJORITY: never).  The "only if" direction is the property;
+    the "if" direction says the guard does not over-block either. -/
+theorem c07_gate_sound (g : Gate) (z y : Cls) :
+    (applyGate g z y).blocked = false ↔ criterion g z y = true := by
+  cases g <;> cases z <;> cases y <;> decide
+
+/-- Every result of the gate that is not blocked is marked successful and is a SUCCESS; every other result is
+    blocked and carries no token. -/
+theorem c07_gate_result_shape (g : Gate) (z y : Cls) :
+    ((applyGate g z y).blocked = false → (applyGate g z y).success = true ∧ (applyGate g z y).action = .success) ∧
+    ((applyGate g z y).blocked = true → (applyGate g z y).token = false ∧ (applyGate g z y).action ≠ .success) ∧
+    (applyGate g z y).action ≠ .circuitOpen := by
+  cases g <;> cases z <;> cases y <;> decide
+
+/-- MAJORITY (which this two-agent loop does not implement) blocks every combination. -/
+theorem c07_majority_blocks (z y : Cls) : (applyGate .majority z y).blocked = true := by
+  cases z <;> cases y <;> decide
+
+/-- An unknown verdict is never taken for a permission: with an unknown executor verdict a request passes only
+    on the assessor's PERMIT under OR / ASSESSOR_PRIORITY; with an unknown assessor verdict only on the
+    executor's permission under OR / EXECUTOR_PRIORITY; with both unknown it is always blocked. -/
+theorem c07_unknown_verdict_is_no_permit (g : Gate) (z y : Cls) (h : (applyGate g z y).blocked = false) :
+    (z = .other → y = .permit ∧ (g = .or ∨ g = .assessPrio)) ∧
+    (y = .other → zPermits z = true ∧ (g = .or ∨ g = .execPrio)) := by
+  revert h; cases g <;> cases z <;> cases y <;> decide
+
+/-! ### one request -/
+
+/-- A reply that does not come from the cache and is not blocked was produced by consulting both agents, both
+    answered (no exception), and their verdicts satisfy the configured gate logic; it is a SUCCESS. -/
+theorem c07_unblocked_only_if_gate_satisfied (cfg : Cfg) (H : Hashes) (s : State) (p : Prompt) (zr yr : Resp)
+    (r : Result) (hr : (run cfg H s p zr yr).2.result = some r) (hc : r.cached = false) (hb : r.blocked = false) :
+    ∃ z y, zr = .ret z ∧ yr = .ret y ∧ criterion cfg.gate z y = true ∧ r = gateResult H cfg.gate p z y ∧
+      r.success = true ∧ r.action = .success := by
+  rcases run_out cfg H s p zr yr with h | h | ⟨_, e, _, _, h⟩ | ⟨_, h⟩
+  · rw [h] at hr; simp [circuitOpenResult] at hr; subst hr; simp at hb
+  · rw [h] at hr
+    unfold consultOut at hr
+    cases zr with
+    | exc => simp [errorResult] at hr; subst hr; simp at hb
+    | ret z =>
+      cases yr with
+      | exc => simp [errorResult] at hr; subst hr; simp at hb
+      | ret y =>
+        cases hp : p.enc <;> simp [hp] at hr
+        subst hr
+        have hb' : (applyGate cfg.gate z y).blocked = false := by simpa [gateResult] using hb
+        have hs := (c07_gate_result_shape cfg.gate z y).1 hb'
+        exact ⟨z, y, rfl, rfl, (c07_gate_sound cfg.gate z y).mp hb', rfl, by simpa [gateResult] using hs.1,
+          by simpa [gateResult] using hs.2⟩
+  · rw [h] at hr; simp at hr; subst hr; simp at hc
+  · rw [h] at hr; simp at hr
+
+/-- Any agent exception yields a blocked reply (unless an earlier reply for the same prompt is served from the
+    cache, in which case no agent is asked at all): the reply, if not cached, is blocked, unsuccessful and
+    carries no token. -/
+theorem c07_exception_blocks (cfg : Cfg) (H : Hashes) (s : State) (p : Prompt) (zr yr : Resp)
+    (hexc : zr = .exc ∨ yr = .exc) (r : Result) (hr : (run cfg H s p zr yr).2.result = some r)
+    (hc : r.cached = false) : r.blocked = true ∧ r.success = false ∧ r.token = none := by
+  rcases run_out cfg H s p zr yr with h | h | ⟨_, e, _, _, h⟩ | ⟨_, h⟩
+  · rw [h] at hr; simp [circuitOpenResult] at hr; subst hr; simp
+  · rw [h] at hr
+    unfold consultOut at hr
+    rcases hexc with rfl | rfl
+    · simp [errorResult] at hr; subst hr; simp
+    · cases zr <;> simp [errorResult] at hr <;> subst hr <;> simp
+  · rw [h] at hr; simp at hr; subst hr; simp at hc
+  · rw [h] at hr; simp at hr
+
+/-- Every encodable prompt gets a reply; a prompt that cannot be encoded (lone surrogate: `run` raises
+    UnicodeEncodeError) never gets a reply that is not blocked. -/
+theorem c07_reply_or_nothing_passes (cfg : Cfg) (H : Hashes) (s : State) (p : Prompt) (zr yr : Resp) :
+    (p.enc = true → (run cfg H s p zr yr).2.result.isSome = true) ∧
+    (p.enc = false → ∀ r, (run cfg H s p zr yr).2.result = some r → r.blocked = true ∧ r.token = none) := by
+  rcases run_out cfg H s p zr yr with h | h | ⟨hp, e, _, _, h⟩ | ⟨hp, h⟩
+  · rw [h]; simp [circuitOpenResult]
+  · rw [h]
+    unfold consultOut
+    cases zr <;> cases yr <;> simp [errorResult]
+    cases hp : p.enc <;> simp
+  · rw [h]; simp [hp]
+  · rw [h]; simp [hp]
+
+/-- An approval token is attached only when the assessor permitted: a non-cached reply carries a token exactly
+    when both agents answered, the assessor's verdict is PERMIT and the request is not blocked; the token is
+    then bound to the hash of exactly this prompt and names the assessor as issuer. -/
+theorem c07_token_iff_assessor_permits_and_unblocked (cfg : Cfg) (H : Hashes) (s : State) (p : Prompt)
+    (zr yr : Resp) (r : Result) (hr : (run cfg H s p zr yr).2.result = some r) (hc : r.cached = false) :
+    (∀ t, r.token = some t → yr = .ret .permit ∧ r.blocked = false ∧ t = ⟨H.sha p.id, .assessor⟩) ∧
+    (yr = .ret .permit → r.blocked = false → r.token = some ⟨H.sha p.id, .assessor⟩) := by
+  rcases run_out cfg H s p zr yr with h | h | ⟨_, e, _, _, h⟩ | ⟨_, h⟩
+  · rw [h] at hr; simp [circuitOpenResult] at hr; subst hr; simp
+  · rw [h] at hr
+    unfold consultOut at hr
+    cases zr with
+    | exc => simp [errorResult] at hr; subst hr; simp
+    | ret z =>
+      cases yr with
+      | exc => simp [errorResult] at hr; subst hr; simp
+      | ret y =>
+        cases hp : p.enc <;> simp [hp] at hr
+        subst hr
+        simp only [gateResult]
+        generalize cfg.gate = g
+        cases g <;> cases z <;> cases y <;> simp [applyGate, errorOut]
+  · rw [h] at hr; simp at hr; subst hr; simp at hc
+  · rw [h] at hr; simp at hr
+
+/-! ### histories: repeated prompts and the cache -/
+
+/-- For every history from the initial state and every reply in it — cached or not —: a reply that is not
+    blocked is the gate's SUCCESS result for verdicts that satisfy the configured gate logic, and if it carries a
+    token the assessor's verdict was PERMIT and the issuer is the assessor. -/
+theorem c07_history_sound (cfg : Cfg) (H : Hashes) (ops : List Op) :
+    ∀ o ∈ (exec cfg H init ops).2, ∀ r, o.out.result = some r → r.blocked = false →
+      ∃ z y, criterion cfg.gate z y = true ∧ r.success = true ∧ r.action = .success ∧
+        (∀ t, r.token = some t → y = .permit ∧ t.issuer = .assessor) := by
+  have key := exec_forall cfg H (fun s => CacheOK cfg H s.cache)
+    (fun o => ∀ r, o.out.result = some r → r.blocked = false →
+      ∃ z y, criterion cfg.gate z y = true ∧ r.success = true ∧ r.action = .success ∧
+        (∀ t, r.token = some t → y = .permit ∧ t.issuer = .assessor)) ?_ ops init (by intro e he; simp [init] at he)
+  · exact key.2
+  · intro s op hinv
+    refine ⟨step_cacheOK cfg H s op hinv, ?_⟩
+    have gate_case : ∀ (q : Prompt) (z y : Cls) (c : Bool),
+        ({ gateResult H cfg.gate q z y with cached := c }).blocked = false →
+        ∃ z' y', criterion cfg.gate z' y' = true ∧ ({ gateResult H cfg.gate q z y with cached := c }).success = true ∧
+          ({ gateResult H cfg.gate q z y with cached := c }).action = .success ∧
+          (∀ t, ({ gateResult H cfg.gate q z y with cached := c }).token = some t → y' = .permit ∧ t.issuer = .assessor) := by
+      intro q z y c hb
+      have hb' : (applyGate cfg.gate z y).blocked = false := by simpa [gateResult] using hb
+      have hs := (c07_gate_result_shape cfg.gate z y).1 hb'
+      refine ⟨z, y, (c07_gate_sound cfg.gate z y).mp hb', by simpa [gateResult] using hs.1,
+        by simpa [gateResult] using hs.2, ?_⟩
+      intro t ht
+      simp only [gateResult] at ht
+      revert ht hb'
+      generalize cfg.gate = g
+      cases g <;> cases z <;> cases y <;> simp [applyGate, errorOut] <;> intro h <;> subst h <;> rfl
+    cases op with
+    | run p zr yr =>
+      simp only [step]
+      intro r hr hb
+      rcases run_out cfg H s p zr yr with h | h | ⟨_, e, he, _, h⟩ | ⟨_, h⟩
+      · rw [h] at hr; simp [circuitOpenResult] at hr; subst hr; simp at hb
+      · rw [h] at hr
+        unfold consultOut at hr
+        cases zr with
+        | exc => simp [errorResult] at hr; subst hr; simp at hb
+        | ret z =>
+          cases yr with
+          | exc => simp [errorResult] at hr; subst hr; simp at hb
+          | ret y =>
+            cases hp : p.enc <;> simp [hp] at hr
+            subst hr
+            exact gate_case p z y false hb
+      · rw [h] at hr; simp at hr; subst hr
+        obtain ⟨q, z, y, _, hres⟩ := hinv e he
+        rw [hres] at hb ⊢
+        exact gate_case q z y true hb
+      · rw [h] at hr; simp at hr
+    | adv d => intro r hr; simp [step] at hr
+    | resetcb => intro r hr; simp [step] at hr
+    | clearcache => intro r hr; simp [step] at hr
+
+/-- Token binding over histories, cache hits included: if the cache key (truncated md5) is injective on
+    prompts, then in every history from the initial state every token that comes back with a reply is bound to
+    the hash of exactly the prompt of THAT request and names the assessor as issuer. -/
+theorem c07_token_binds_request (cfg : Cfg) (H : Hashes) (hinj : ∀ a b, H.md5 a = H.md5 b → a = b) (ops : List Op) :
+    ∀ o ∈ (exec cfg H init ops).2, ∀ p zr yr r t, o.op = .run p zr yr → o.out.result = some r →
+      r.token = some t → t.hash = H.sha p.id ∧ t.issuer = .assessor := by
+  have key := exec_forall cfg H (fun s => CacheOK cfg H s.cache)
+    (fun o => ∀ p zr yr r t, o.op = .run p zr yr → o.out.result = some r →
+      r.token = some t → t.hash = H.sha p.id ∧ t.issuer = .assessor) ?_ ops init (by intro e he; simp [init] at he)
+  · exact key.2
+  · intro s op hinv
+    refine ⟨step_cacheOK cfg H s op hinv, ?_⟩
+    have gate_tok : ∀ (q : Prompt) (z y : Cls) (t : Token), (gateResult H cfg.gate q z y).token = some t →
+        t.hash = H.sha q.id ∧ t.issuer = .assessor := by
+      intro q z y t ht
+      simp only [gateResult] at ht
+      split at ht
+      · cases ht; exact ⟨rfl, rfl⟩
+      · cases ht
+    intro p zr yr r t hop hr ht
+    cases op with
+    | run p' zr' yr' =>
+      cases hop
+      simp only [step] at hr
+      rcases run_out cfg H s p zr yr with h | h | ⟨_, e, he, hk, h⟩ | ⟨_, h⟩
+      · rw [h] at hr; simp [circuitOpenResult] at hr; subst hr; simp at ht
+      · rw [h] at hr
+        unfold consultOut at hr
+        cases zr with
+        | exc => simp [errorResult] at hr; subst hr; simp at ht
+        | ret z =>
+          cases yr with
+          | exc => simp [errorResult] at hr; subst hr; simp at ht
+          | ret y =>
+            cases hp : p.enc <;> simp [hp] at hr
+            subst hr
+            exact gate_tok p z y t ht
+      · rw [h] at hr; simp at hr; subst hr
+        obtain ⟨q, z, y, hkey, hres⟩ := hinv e he
+        have hq : q.id = p.id := hinj _ _ (by rw [← hkey, hk])
+        rw [hres] at ht
+        have := gate_tok q z y t (by simpa using ht)
+        rw [hq] at this
+        exact this
+      · rw [h] at hr; simp at hr
+    | adv d => cases hop
+    | resetcb => cases hop
+    | clearcache => cases hop
+
+/-- Cached replies are identical in verdict to the original: in every history from the initial state, every
+    reply that comes back with `cached = true` has an original strictly earlier in the history — a request
+    whose prompt has the same cache key, answered by consulting the agents (not itself from the cache) — and
+    repeats that reply's success, action, blocked flag and token exactly (only the `cached` flag differs). -/
+theorem c07_cached_verdict_identical (cfg : Cfg) (H : Hashes) (ops : List Op) (tr1 tr2 : List Obs) (o : Obs)
+    (r : Result) (hsplit : (exec cfg H init ops).2 = tr1 ++ o :: tr2)
+    (hr : o.out.result = some r) (hc : r.cached = true) :
+    ∃ o' ∈ tr1, ∃ (p p' : Prompt) (zr yr zr' yr' : Resp) (r' : Result),
+      o.op = .run p zr yr ∧ o'.op = .run p' zr' yr' ∧ H.md5 p'.id = H.md5 p.id ∧
+      o'.out.result = some r' ∧ r'.cached = false ∧
+      r.success = r'.success ∧ r.action = r'.action ∧ r.blocked = r'.blocked ∧ r.token = r'.token := by
+  -- a reply with the cached flag set is a cache hit
+  have hkind : o.out.kind = .cacheHit := by
+    have key := exec_forall cfg H (fun _ => True)
+      (fun o => ∀ r, o.out.result = some r → r.cached = true → o.out.kind = .cacheHit) ?_ ops init trivial
+    · exact key.2 o (by rw [hsplit]; simp) r hr hc
+    · intro s op _
+      refine ⟨trivial, ?_⟩
+      cases op with
+      | run p zr yr =>
+        simp only [step]
+        intro r hr hc
+        rcases run_out cfg H s p zr yr with h | h | ⟨_, e, _, _, h⟩ | ⟨_, h⟩
+        · rw [h] at hr; simp [circuitOpenResult] at hr; subst hr; simp at hc
+        · rw [h] at hr
+          have := (consultOut_kind cfg H p zr yr).2.2 r hr
+          rw [this] at hc; cases hc
+        · rw [h]
+        · rw [h] at hr; simp at hr
+      | adv d => intro r hr; simp [step] at hr
+      | resetcb => intro r hr; simp [step] at hr
+      | clearcache => intro r hr; simp [step] at hr
+  obtain ⟨o', ho', p, p', zr, yr, zr', yr', r', ev, hop, hop', hmd, hout', hc', hres⟩ :=
+    exec_originals cfg H ops init [] (by intro e he; simp [init] at he) tr1 tr2 o hsplit hkind
+  refine ⟨o', by simpa using ho', p, p', zr, yr, zr', yr', r', hop, hop', hmd, by rw [hout'], hc', ?_⟩
+  rw [hr] at hres
+  cases hres
+  exact ⟨rfl, rfl, rfl, rfl⟩
+
+/-- The injectivity hypothesis of `c07_token_binds_request` is needed (and is the modelled assumption about the
+    truncated md5 cache key): with a colliding key a reply for prompt 2 is served from prompt 1's entry and
+    carries a token bound to prompt 1. -/
+theorem c07_binding_needs_injective_key_witness :
+    let H : Hashes := ⟨fun _ => 0, id⟩
+    let tr := (exec {} H init [.run ⟨1, true⟩ (.ret .execute) (.ret .permit),
+                               .run ⟨2, true⟩ (.ret .execute) (.ret .permit)]).2
+    (tr.map fun o => o.out.result.bind (·.token)) = [some ⟨1, .assessor⟩, some ⟨1, .assessor⟩] := by
+  decide
+
+/-! ### Non-vacuity: concrete requests and histories meeting the hypotheses -/
+
+private def pr (n : Nat) : Prompt := ⟨n, true⟩
+
+/-- an un-blocked fresh reply with a token (hypotheses of `c07_unblocked_only_if_gate_satisfied` and
+    `c07_token_iff_assessor_permits_and_unblocked`), and an un-blocked reply WITHOUT token under
+    EXECUTOR_PRIORITY (assessor answered DEFER) -/
+example : (run {} idHashes init (pr 5) (.ret .execute) (.ret .permit)).2.result
+      = some ⟨true, .success, false, some ⟨5, .assessor⟩, false⟩ ∧
+    (run { gate := .execPrio } idHashes init (pr 5) (.ret .execute) (.ret .other)).2.result
+      = some ⟨true, .success, false, none, false⟩ := by decide
+
+/-- an exception of the assessor after the executor permitted (hypothesis of `c07_exception_blocks`) -/
+example : (run { gate := .or } idHashes init (pr 5) (.ret .permit) .exc).2.result = some errorResult := by decide
+
+/-- a history with a cache hit whose verdict repeats the original although the agents would now answer
+    differently (hypotheses of `c07_cached_verdict_identical` / `c07_token_binds_request` are met by `tr[2]`) -/
+example : ((exec {} idHashes init [.run (pr 1) (.ret .execute) (.ret .permit), .run (pr 2) (.ret .block) (.ret .block),
+      .run (pr 1) (.ret .failure) .exc]).2.map fun o => o.out.result) =
+    [some ⟨true, .success, false, some ⟨1, .assessor⟩, false⟩, some ⟨true, .blocked, true, none, false⟩,
+     some ⟨true, .success, false, some ⟨1, .assessor⟩, true⟩] := by decide
+
+/-- an un-encodable prompt: no reply with the cache on, a blocked ERROR when an agent raises with the cache off -/
+example : (run {} idHashes init ⟨9, false⟩ (.ret .execute) (.ret .permit)).2.result = none ∧
+    (run { cacheOn := false } idHashes init ⟨9, false⟩ .exc (.ret .permit)).2.result = some errorResult := by decide
 
 end Operon.Cffl
